@@ -96,9 +96,21 @@ class UnitLedger(object):
                 rd = Reader(e.role)
                 poly = rd.read(e.term)
                 cur = self.fx_currency(e.name, e.guards)
-                self.entries.append(Entry(cur, poly, loops, eg, og, e.where, 'FX %s += %s' % (e.name.show(), e.term.show()), e.role))
+                ent = Entry(cur, poly, loops, eg, og, e.where, 'FX %s += %s' % (e.name.show(), e.term.show()), e.role)
+                ent.fx_name = e.name
+                ent.via = e.via
+                self.entries.append(ent)
             elif e.kind == 'def':
-                self.add_def(e, loops, eg, og)
+                # create-if-absent of the variable itself (`if name not in block: AddVariable(name, ...)`) is idempotent:
+                # whoever created it earlier used the same template, so the definition holds either way
+                own = [g for g in e.guards if (not g.pol) and g.cond.kind == 'present' and g.cond.args[0] == e.role
+                       and g.cond.args[1] == e.name]
+                if own and e.mode == 'create' and not e.rhs.is_empty():
+                    eg2 = tuple(g for g in eg if g not in own)
+                    og2 = tuple(g for g in og if g not in own)
+                    self.add_def(e, loops, eg2, og2)
+                else:
+                    self.add_def(e, loops, eg, og)
             elif e.kind == 'raise':
                 self.aborts.append((loops, eg, og, e.where))
 
@@ -244,6 +256,52 @@ class UnitLedger(object):
                     return poly
             return None
         return lookup, table
+
+    def reduce(self, poly, sc, unique_guard=None):
+        """substitute the unit's identities (under scenario sc) and normalise"""
+        forb = self.forbidden_literals(sc)
+        lookup, table = self.make_lookup(sc, forb=forb)
+        p = drop_forbidden(poly, forb)
+        p = substitute(p, lookup)
+        p = drop_forbidden(p, forb)
+        return normalize(p, unique_guard)
+
+    def fx_valuation(self, unique_guard=None):
+        """per scenario: sum over the FX entries of  entry * XR(currency)  (numeraire entries at 1)"""
+        from .strdom import ext
+        out = []
+        for sc in self.scenarios():
+            total = Poly()
+            used = []
+            for x in self.entries:
+                if not hasattr(x, 'fx_name') or not self.holds(x.outer, sc):
+                    continue
+                used.append(x)
+                w = x.wrapped()
+                if x.fx_name.is_literal():
+                    total = total + w
+                    continue
+                cur_holes = [h for h in x.fx_name.holes() if h.kind == 'currency']
+                if not cur_holes:
+                    self.problems.append('FX key without currency: ' + x.fx_name.show())
+                    continue
+                xr = Poly.atom(('var', ext('XR').key(), Str([cur_holes[0]]).key()))
+                # multiply inside the sums (the rate may depend on the loop element)
+                p = x.poly * xr
+                for lk in reversed(x.loops):
+                    gs = tuple(g.key() for g in x.elem_guards if mentions_elem(g.key(), lk))
+                    p = make_sum(lk, gs, p)
+                total = total + p
+            if used:
+                out.append((sc, self.reduce(total, sc, unique_guard), used))
+        seen, res = set(), []
+        for sc, total, used in out:
+            rel = tuple(sorted(((k, v) for k, v in sc.items() if any(k == g.cond.key() for x in used for g in x.outer)), key=repr))
+            if (rel, total.freeze()) in seen:
+                continue
+            seen.add((rel, total.freeze()))
+            res.append((dict(rel), total, used))
+        return res
 
     # ---- the balance check -------------------------------------------------------------------------------
     def balance(self, unique_guard=None):
